@@ -1311,6 +1311,11 @@ func (r *pilosaRoaringIterator) Next() (key uint64, cType byte, n int, length in
 		r.Done(fmt.Errorf("container %d/%d, key %d, has unknown type %d", r.currentIdx, r.keys, r.currentKey, r.currentType))
 		return r.Current()
 	}
+	if r.currentKey > maxContainerKey {
+		// key<<16 would not fit in 64 bits: values of such a container wrap around
+		r.Done(fmt.Errorf("container %d/%d has key %d beyond the maximum %d", r.currentIdx, r.keys, r.currentKey, uint64(maxContainerKey)))
+		return r.Current()
+	}
 
 	// a run container keeps its data after an initial 2 byte length header
 	var runCount uint16
@@ -1721,8 +1726,14 @@ func (b *Bitmap) unmarshalPilosaRoaring(data []byte) error {
 		if typ != uint16(containerArray) && typ != uint16(containerBitmap) && typ != uint16(containerRun) {
 			return fmt.Errorf("malformed bitmap, container %d has unknown type %d", i, typ)
 		}
+		key := binary.LittleEndian.Uint64(buf[0:8])
+		if key > maxContainerKey {
+			// key<<16 would not fit in 64 bits: the values of such a container
+			// wrap around and iteration is no longer monotonic.
+			return fmt.Errorf("malformed bitmap, container %d has key %d beyond the maximum %d", i, key, uint64(maxContainerKey))
+		}
 		b.Containers.PutContainerValues(
-			binary.LittleEndian.Uint64(buf[0:8]),
+			key,
 			byte(typ),
 			int(binary.LittleEndian.Uint16(buf[10:12]))+1,
 			true)
